@@ -146,9 +146,15 @@ def run(rep):
     dis = [{'request': l, 'model': a, 'python': b} for l, a, b in zip(lines, la, pa) if a != b]
     findings = []
     verdicts = {'true': 0, 'false': 0, 'none': 0}
+    n_exhausted = 0
     for f, ans in zip(forms, pa):
         want = classify(f)
         verdicts[want] += 1
+        if ans == 'fuel':
+            # CPython's recursion limit (RecursionError; the C-level limit of `==` on deeply nested terms cannot be raised):
+            # resource exhaustion on a large normal form — an observable failure, never a verdict (DESIGN 0.5 "Fuel")
+            n_exhausted += 1
+            continue
         if ans != want:
             findings.append({'key': 'verdict', 'formula': fstr(f), 'prover': ans, 'truth_table': want,
                              'what': f'prove_tautology answers {ans} for a formula that is {"a tautology" if want == "true" else "unsatisfiable" if want == "false" else "contingent"}'})
@@ -252,7 +258,7 @@ def run(rep):
                 'resolution on clause sets in EVERY ordering; returned proof objects (final and the two implications of every '
                 'stage) checked for literal conclusion and replay on a StatefulInterpreter' % ('' if quick else ',7', 7 if quick else 9),
         'programs': len(pl) + len(rl), 'disagreements_checked': len(dis) + len(chain_dis) + len(findings),
-        'truth_table_classes': verdicts, 'clause_orderings': len(rl), 'proof_objects_checked': len(ck),
+        'truth_table_classes': verdicts, 'resource_exhausted_no_verdict': n_exhausted, 'clause_orderings': len(rl), 'proof_objects_checked': len(ck),
         'samples': [pl[0], pl[-1], rl[0], ck[0]],
     })
     for f in findings[:8]:
